@@ -58,6 +58,7 @@ type Job struct {
 	JSONLens        []int
 	Stubs           map[string]interceptFn
 	OneShot         bool // non-incremental solving (floating point)
+	ReplayInstr     []SrcInsert // textual insertions into copies of repository files for the native replay
 	ReplayTest      string   // native test (in the harness dir's *_test.go files) that replays a model of this job
 	CutCalls        []string // calls to functions whose name ends with one of these end the path as outside the unit
 	HangIsViolation bool // exceeding the step budget is reported as a hang candidate (replayed natively with a watchdog)
@@ -480,6 +481,9 @@ func harnessOverlay(pkgDirs []string) map[string][]byte {
 }
 
 var harnessFuncRe = regexp.MustCompile(`(?m)^func (H_\w+)\(\)`)
+
+// SrcInsert: insert Text on a new line after the first line containing Anchor in File (repo-relative).
+type SrcInsert struct{ File, Anchor, Text string }
 
 // harnessTestOverlay maps the replay drivers (*_test.go of the harness dirs).
 func harnessTestOverlay(pkgDirs []string) map[string][]byte {
